@@ -23,7 +23,7 @@ ID = "C05"
 LEVEL = "exploration"
 TECHNIQUE = ("model-based testing of operation histories: exhaustive short sequences over fixed op alphabets + Hypothesis-drawn "
              "histories, real revent run in lock-step with an independent delivery monitor")
-LEVEL_TEXT = ("Exploration by generated histories: every sequence of up to 4 (quick) / 5 (thorough) operations over four fixed "
+LEVEL_TEXT = ("Exploration by generated histories: every sequence of up to 4 (quick) / 5 (thorough) operations over five fixed "
               "alphabets of 12-16 operations is run, plus Hypothesis-drawn histories with re-entrant handler scripts; each is judged "
               "by a monitor (pvf/ref/evmodel.py) restating the property: snapshot at raise time ordered by (-priority, subscription "
               "order), exactly once, halting, removal, rejection of undeclared types, error suppression, weak handlers. The event "
@@ -45,11 +45,11 @@ ASSUMPTIONS = [
   "raising the class form of an undeclared type with no listeners is not judged (the statement only names instances)",
   "unsubscribe operations refer to subscriptions that were made at some point in the history (possibly already gone)",
   "a handler (bound method) has at most one subscription per (source, type) at a time: the statement speaks of handlers, not subscriptions, so a doubly subscribed handler is an ambiguous zone; the generator substitutes another method of the same owner",
-  "owner death is observed through a weakref (never predicted) except for owners that were only ever subscribed weakly and are dropped outside any delivery: those must be collectable",
+  "owner death is observed through a weakref (never predicted) except for owners that were only ever subscribed weakly and are dropped outside any delivery: those must be collectable, whatever their handlers did before (returned, halted, raised with the exception propagated to the raiser or suppressed by raiseEventNoErrors through the exception hook pox.core installs); the harness itself keeps no traceback of a handler's exception",
 ]
 EXHAUSTIVE_SCOPE = {
-  "quick": "all operation sequences (with repetition) of length <= 4 over the four fixed alphabets 'prio' (12 ops), 'remove' (16 ops), 'weak' (16 ops) and 'eq' (13 ops), and of length <= 3 over 'bind' (14 ops: name-based wiring with overlapping prefixes / event names on a third source), fixed handler scripts",
-  "thorough": "all operation sequences (with repetition) of length <= 5 over the same four alphabets, <= 4 over 'bind'",
+  "quick": "all operation sequences (with repetition) of length <= 4 over the five fixed alphabets 'prio' (12 ops), 'remove' (16 ops), 'weak' (16 ops), 'eq' (13 ops) and 'weakexc' (13 ops: weak-only owners whose handlers raise under plain and error-suppressing raises and are then dropped), and of length <= 3 over 'bind' (14 ops: name-based wiring with overlapping prefixes / event names on a third source), fixed handler scripts",
+  "thorough": "all operation sequences (with repetition) of length <= 5 over the same five alphabets, <= 4 over 'bind'",
 }
 
 METHODS = ["handle", "_handle_E0", "_handle_E1", "_handle_E2", "_handle_EU", "_handle_p_E0", "_handle_p_E1", "_handle_p_EU",
@@ -169,6 +169,9 @@ class RT(object):
     self.invocations = [0] * self.nown
     self.deliveries = {}
     self.abort_exc = {}
+    self.abort_owner = {}
+    self.suppressed_for = set()   # owners one of whose handlers raised and had the exception suppressed by a NoErrors raise
+    self.propagated_for = set()   # ... and had it propagated by a plain raise
     self.depth = 0
     self.harness_error = None
     self.nv = 0
@@ -268,6 +271,7 @@ class RT(object):
         self.nontrivial = True
       if pending is not None:
         self.abort_exc[d.id] = pending
+        self.abort_owner[d.id] = i
     except BaseException:
       if self.harness_error is None:
         self.harness_error = traceback.format_exc()
@@ -335,6 +339,8 @@ class RT(object):
       return None
     T = self.P["types"][ti]
     prio, once, weak = op.get("p", 0), bool(op.get("once")), bool(op.get("weak"))
+    if self.scripts[i].get("weakonly"):
+      weak = True               # this owner only ever subscribes weakly: it must stay collectable throughout
     declared = self.mon.is_declared(si, ti)
     name = T.__name__
     try:
@@ -530,6 +536,7 @@ class RT(object):
       if exc is not None:
         exc.__traceback__ = None
       he = self.abort_exc.pop(d.id, None)
+      self.abort_owner.pop(d.id, None)
       if he is not None:
         he.__traceback__ = None
       exc = he = None
@@ -565,6 +572,8 @@ class RT(object):
     if exc is None:
       if handler_exc is not None:
         self.flag("handler-exception-suppressed" if noerr else "handler-exception-not-propagated")
+        if noerr:
+          self.suppressed_for.add(self.abort_owner.get(d.id))
       return None
     if handler_exc is not None and exc is handler_exc:
       if noerr:
@@ -572,6 +581,7 @@ class RT(object):
                       exc=type(exc).__name__)
         return None
       self.flag("handler-exception-propagated")
+      self.propagated_for.add(self.abort_owner.get(d.id))
       return exc
     self.out.violations.append({"key": exc_key(exc, clause="raise-raised", noerr=noerr),
                                 "msg": "raise (%s form%s) raised %r, which no handler raised\n%s" % (
@@ -591,11 +601,19 @@ class RT(object):
     del self.owners[i]
     self.dropped.add(i)
     self.flag("drop")
-    if self.wr[i]() is not None and i not in self.strong_ever and not self.mon.stack:
-      gc.collect()
+    if i not in self.strong_ever and not self.mon.stack:
+      # only ever subscribed weakly, nobody is executing: whatever happened to its handlers before (returned,
+      # halted, raised with the exception propagated or suppressed), the owner goes when its holder lets go
+      after = ("suppressed-exception" if i in self.suppressed_for else
+               "propagated-exception" if i in self.propagated_for else
+               "normal-returns" if self.invocations[i] else "no-invocation")
+      if had_weak:
+        self.flag("weak-only-owner-dropped-after-" + after)
       if self.wr[i]() is not None:
-        self.out.fail("weak-owner-kept-alive", "owner %d was only ever subscribed weakly, its last reference was dropped, "
-                      "and it is still alive after gc.collect()" % i)
+        gc.collect()
+        if self.wr[i]() is not None:
+          self.out.fail("weak-owner-kept-alive", "owner %d was only ever subscribed weakly, its last reference was dropped "
+                        "(after %s of its handlers), and it is still alive after gc.collect()" % (i, after), after=after)
     self.poll_owners()
     if had_weak and i in self.known_dead:
       self.flag("weak-handler-owner-died")
@@ -626,6 +644,8 @@ class RT(object):
       return None
     pfx = op.get("pfx", "")
     weak, prio = bool(op.get("weak")), op.get("p", 0)
+    if self.scripts[i].get("weakonly"):
+      weak = True
     api = op.get("api", "addListeners")
     # expected wiring, from the documentation of autoBindEvents
     start = "_handle_" + (pfx + "_" if pfx else "")
@@ -801,6 +821,19 @@ def _alphabets():
           _raise(s=2, t=4), _raise(s=2, t=6, form="cls"), _raise(s=2, t=8), _raise(s=2, t=9, noerr=True),
           _unsub(0, "handler"), {"op": "drop", "h": 1}]
   A["bind"] = (owners, ops, 3)
+  # owners that only ever subscribe weakly and whose handlers end with an exception (suppressed by a NoErrors raise
+  # through pox.core's hook, or propagated by a plain raise), then lose their holder: they must go, and their handlers with them
+  owners = [
+    _o(exc=True, weakonly=True),                                # 0 raises Boom
+    _o(exc="base", weakonly=True),                              # 1 raises a BaseException
+    _o(weakonly=True),                                          # 2 returns normally
+    _o(ops=[{"op": "drop", "h": 0}]),                           # 3 (strong) drops owner 0 from inside a delivery
+  ]
+  ops = [_sub(0), _sub(0, t=1, api="byName"), _sub(1), _sub(2, p=5), _sub(3, p=7),
+         {"op": "bind", "s": 0, "h": 0, "pfx": "", "weak": True, "p": 0, "api": "autoBind"},
+         _raise(noerr=True), _raise(form="cls", noerr=True), _raise(), _raise(t=1, form="cls", noerr=True),
+         {"op": "drop", "h": 0}, {"op": "drop", "h": 1}, {"op": "drop", "h": 2}]
+  A["weakexc"] = (owners, ops, 1)
   return A
 
 
@@ -843,6 +876,7 @@ def _strategy(tier):
     "exc": st.sampled_from([False] * 10 + [True, True, "base"]),
     "eq": st.sampled_from([0, 0, 0, 1, 1, 2]),
     "leak": st.sampled_from([False, False, True]),
+    "weakonly": st.sampled_from([False, False, False, True]),
     "reps": st.sampled_from([1, 1, 2]),
     "ops": st.lists(_s_op(True), min_size=0, max_size=3),
   })
@@ -861,6 +895,7 @@ def plan(tier):
       Enum("seq-weak", lambda: _enum("weak", 4), shards=8),
       Enum("seq-eq", lambda: _enum("eq", 4), shards=4),
       Enum("seq-bind", lambda: _enum("bind", 3), shards=4),
+      Enum("seq-weakexc", lambda: _enum("weakexc", 4), shards=4),
       Hyp("histories", lambda: _strategy(tier), examples=3000, shards=16),
     ]
   return [
@@ -869,5 +904,6 @@ def plan(tier):
     Enum("seq-weak", lambda: _enum("weak", 5), shards=16),
     Enum("seq-eq", lambda: _enum("eq", 5), shards=16),
     Enum("seq-bind", lambda: _enum("bind", 4), shards=16),
+    Enum("seq-weakexc", lambda: _enum("weakexc", 5), shards=16),
     Hyp("histories", lambda: _strategy(tier), examples=600000, shards=16),
   ]
